@@ -256,6 +256,7 @@ pub fn run(args: &Args) -> i32 {
     r.c11.require("obs.links_checked", 10);
     r.c12.require("tip_changes", 3);
     r.c12.require("reorgs", 1);
+    r.c12.require("ops.block_burst", 3);
     r.c12.require("obs.readd_candidates", 1);
     r.c12.require("obs.dep_user_pooled_while_pooled_spender_committed", 6);
     r.c12.require("obs.race.submit_held_across_tip_change", 6);
@@ -437,6 +438,8 @@ fn run_session(rng: &mut Rng, si: u64, n_ops: u64, r: &mut Reports) {
             23 => Some(4),
             30 => Some(3),
             12 => Some(7),
+            20 => Some(8),
+            48 => Some(8),
             37 => Some(6),
             44 => Some(1),
             51 => Some(5),
@@ -455,6 +458,7 @@ fn run_session(rng: &mut Rng, si: u64, n_ops: u64, r: &mut Reports) {
                 5 => s.op_rbf_equal(r),
                 6 => s.op_readd_family(r),
                 7 => s.op_cellref_evict(r),
+                8 => s.op_block_burst(r),
                 _ => s.op_pool_pressure(r),
             };
             if !ok {
@@ -467,7 +471,8 @@ fn run_session(rng: &mut Rng, si: u64, n_ops: u64, r: &mut Reports) {
             0..=34 => s.op_submit(r, false),
             35..=44 => s.op_submit(r, true),
             45..=49 => s.op_remove(r),
-            50..=69 => s.op_block(r, 0),
+            50..=65 => s.op_block(r, 0),
+            66..=69 => s.op_block_burst(r),
             70..=77 => {
                 let w_far = s.tg.rc.window.1;
                 let d = 1 + s.rng.below(w_far + 3);
@@ -891,6 +896,36 @@ impl Sess {
             return false;
         }
         self.finish_block_op(&pre, old_tip, &new_blocks, depth, r)
+    }
+
+
+    /// C12 / C20: two to four extension blocks delivered back to back, so that the notifications of
+    /// consecutive tip changes are in flight in the pool service together (seeded delays at
+    /// `pool::before_reorg_lock` sit between their arrival and their application).
+    fn op_block_burst(&mut self, r: &mut Reports) -> bool {
+        let Some(pre) = self.quiesce() else { return false };
+        let old_tip = self.n_tip();
+        let k = 2 + self.xrng.below(3);
+        let mut pool_txs: Vec<TransactionView> = pre.entries.iter().map(|e| e.tx.clone()).collect();
+        self.rng.shuffle(&mut pool_txs);
+        let take = self.rng.usize_below(pool_txs.len().min(4) + 1);
+        let mut cur = old_tip;
+        let mut blocks: Vec<H> = vec![];
+        for i in 0..k {
+            cur = if i == 0 { self.tg.extend_ex(&cur, &pool_txs[..take]) } else { self.tg.extend_ex(&cur, &[]) };
+            blocks.push(cur);
+        }
+        for x in &blocks {
+            let b = std::sync::Arc::clone(&self.tg.rc.get(x).block);
+            for tx in b.transactions().iter().skip(1) {
+                self.known.entry(tx.proposal_short_id()).or_insert_with(|| tx.clone());
+            }
+        }
+        if !self.deliver(&blocks, r) {
+            return false;
+        }
+        r.c12.count("ops.block_burst");
+        self.finish_block_op(&pre, old_tip, &blocks, 0, r)
     }
 
     /// Build (on the builder node, registered in the model, not yet delivered to N) the blocks of
